@@ -16,6 +16,7 @@ _NAMES = {
     'labels': 'container',
     'pairs': 'container',
     'labels_sys': 'container',
+    'reindex_sys': 'container',
     'alias': 'alias',
     'linker': 'linker',
 }
